@@ -39,17 +39,44 @@ Definition two_parts : list craw :=
 Definition run_concat (raws : list craw) (ix : list aidx) : res arr :=
   c <- c_mk raws [] ;; c_getitem c ix.
 
-(* F10: c[5:2] raises although numpy answers with an empty array *)
-Lemma concat_empty_head_slice_refuted :
-  run_concat two_parts [ASlice (Some 5) (Some 2) None] = Err
-  /\ spec_concat two_parts [] [ASlice (Some 5) (Some 2) None] <> Err.
-Proof. split; [vm_compute; reflexivity|vm_compute; discriminate]. Qed.
+(* F10 (repaired): c[5:2] - the start lies in the second part, the stop in the first - is answered with the empty
+   array numpy returns *)
+Lemma concat_empty_head_slice_fixed :
+  run_concat two_parts [ASlice (Some 5) (Some 2) None] = spec_concat two_parts [] [ASlice (Some 5) (Some 2) None]
+  /\ run_concat two_parts [ASlice (Some 5) (Some 2) None] <> Err
+  /\ run_concat two_parts [ASlice (Some 4) (Some 1) (Some 2)] = spec_concat two_parts [] [ASlice (Some 4) (Some 1) (Some 2)]
+  /\ run_concat two_parts [ASlice (Some 4) (Some 1) (Some 2)] <> Err.
+Proof.
+  split; [vm_compute; reflexivity|]. split; [vm_compute; discriminate|]. split; [vm_compute; reflexivity|].
+  vm_compute; discriminate.
+Qed.
 
-(* F10b: empty tail selection with a slice head raises *)
-Lemma concat_empty_tail_refuted :
-  run_concat two_parts [full; ASlice (Some 1) (Some 0) None] = Err
+(* ... and what failed before the repair: without `stop = max(start, stop)` the indexers to visit were
+   range(find_indexer(5), find_indexer(2) + 1) = range(1, 1), no chunk was extracted and np.concatenate([]) raises *)
+Lemma concat_empty_head_slice_refuted_before_fix :
+  py_range (concat_first_indexer (find_indexer [0; 3] 5) (find_indexer [0; 3] 2))
+           (concat_end_indexer (find_indexer [0; 3] 5) (find_indexer [0; 3] 2)) 1 = []
+  /\ (forall dt st, concat_chunks dt st [] = Err)
+  /\ spec_concat two_parts [] [ASlice (Some 5) (Some 2) None] <> Err.
+Proof. split; [vm_compute; reflexivity|]. split; [reflexivity|vm_compute; discriminate]. Qed.
+
+(* F10b (repaired): an empty tail selection with a slice / mask head is answered with the empty array of numpy *)
+Lemma concat_empty_tail_fixed :
+  run_concat two_parts [full; ASlice (Some 1) (Some 0) None] = spec_concat two_parts [] [full; ASlice (Some 1) (Some 0) None]
+  /\ run_concat two_parts [full; ASlice (Some 1) (Some 0) None] <> Err
+  /\ run_concat two_parts [AMask [true; false; false; true; true]; AList []]
+     = spec_concat two_parts [] [AMask [true; false; false; true; true]; AList []]
+  /\ run_concat two_parts [AMask [true; false; false; true; true]; AList []] <> Err.
+Proof.
+  split; [vm_compute; reflexivity|]. split; [vm_compute; discriminate|]. split; [vm_compute; reflexivity|].
+  vm_compute; discriminate.
+Qed.
+
+(* ... and what failed before the repair: .reshape([-1] + shape_tails) with an empty tail dimension *)
+Lemma concat_empty_tail_refuted_before_fix : forall x,
+  reshape_chunk_before_fix [0] x = Err /\ reshape_chunk [0] x = Ok x
   /\ spec_concat two_parts [] [full; ASlice (Some 1) (Some 0) None] <> Err.
-Proof. split; [vm_compute; reflexivity|vm_compute; discriminate]. Qed.
+Proof. intro x. split; [reflexivity|]. split; [reflexivity|vm_compute; discriminate]. Qed.
 
 (* supported cases on the same parts agree (the hypotheses of the statements above are not vacuous) *)
 Lemma concat_example_supported :
@@ -635,7 +662,7 @@ Section SliceBranch.
     unfold concat_chunk_start, concat_chunk_stop in Hc.
     set (cs := if off <=? start then start - off else (start - off) mod st) in *.
     destruct (part_get dt (nth j ps pd) _) as [sub|] eqn:EG; [|discriminate]. cbn [bind] in Hc.
-    unfold reshape_chunk in Hc. destruct (existsb _ _); [discriminate|]. injection Hc as <-.
+    unfold reshape_chunk in Hc. injection Hc as <-.
     destruct (part_rows ps fs T dt tail S HP HT HS Hlen _ pd _ _ Hj EG) as [Pq [d [ER [HD [HN _]]]]].
     fold lens in ER, HN. fold CH in HN. fold off in HN.
     cbn [resolve] in ER. destruct (slice_positions _ _ _ _) as [Pq'|] eqn:SP; [|discriminate].
@@ -862,7 +889,7 @@ Section MaskBranch.
       { unfold starts. rewrite starts_from_nth by (rewrite Hl; exact Hj). lia. }
       rewrite Hoff in Hc. rewrite <- bnd_S in Hc by (rewrite Hl; exact Hj).
       destruct (part_get dt (nth j ps pd) _) as [sub|] eqn:EG; [|discriminate]. cbn [bind] in Hc.
-      unfold reshape_chunk in Hc. destruct (existsb _ _); [discriminate|]. injection Hc as <-.
+      unfold reshape_chunk in Hc. injection Hc as <-.
       destruct (part_rows ps fs T dt tail S HP HT HS Hlen _ pd _ _ Hj EG) as [Pq [d [ER [HD [HN _]]]]].
       fold lens in ER, HN. fold CH in HN.
       cbn [resolve] in ER. destruct (zlen _ =? _); [|discriminate]. injection ER as <- <-.
@@ -1053,11 +1080,19 @@ Section Core.
         induction LN; cbn; [lia|]. fold (zsum l). lia. }
       destruct (slice_indices_bounds _ _ _ _ _ _ _ Htot ESI) as [H0 [Bp _]].
       specialize (Bp ltac:(lia)).
+      (* repair of F10: the loop runs with stop' = max(start, stop); both give the same (possibly empty) progression *)
+      unfold concat_slice_stop in HC. set (stop' := Z.max start stop) in HC.
       destruct (slice_chunks _ _ _ _ _ _ _ _ _ _) as [chunks|] eqn:EM in HC; [|discriminate]. cbn [bind] in HC.
       exists (py_range start stop st, false). split.
       + cbn [resolve]. unfold slice_positions. now rewrite ESI.
       + assert (Hst : 0 < st) by lia.
-        exact (head_slice_chunks ps fs T dt tail S HP HT HS Hne Hlen start stop st Hst (proj1 Bp) (proj2 Bp) chunks out0 EM HC).
+        assert (Bp' : 0 <= stop' <= total) by (unfold stop'; lia).
+        assert (EQ : py_range start stop' st = py_range start stop st).
+        { unfold stop'. destruct (Z_le_gt_dec start stop) as [Hle|Hgt].
+          - now rewrite Z.max_r by lia.
+          - rewrite Z.max_l by lia. rewrite !py_range_nil by lia. reflexivity. }
+        rewrite <- EQ.
+        exact (head_slice_chunks ps fs T dt tail S HP HT HS Hne Hlen start stop' st Hst (proj1 Bp) Bp' chunks out0 EM HC).
     - cbn [c_head] in HC. fold lens in HC. fold total in HC.
       destruct (zlen m =? total) eqn:EL; [|discriminate].
       destruct (mapM _ _) as [chunks|] eqn:EM in HC; [|discriminate]. cbn [bind] in HC.
@@ -1385,3 +1420,115 @@ Lemma concat_shape_dtype_example :
   exists c out, c_mk raws ts = Ok c /\ c_getitem c [] = Ok out /\ c_shape c = Ok [5; 2; 1] /\ c_dtype c = Ok 4
     /\ nd_shape (a_nd out) = [5; 2; 1] /\ a_dtype out = 4.
 Proof. cbv zeta. eexists. eexists. split; [vm_compute; reflexivity|]. split; [vm_compute; reflexivity|]. repeat split. Qed.
+
+(* ------------------------------------------------------------------ 10. slice and mask heads ANSWER (after the repairs of F10 / F10b) *)
+
+(* The concatenated indexer adds no rejection of its own for a slice head with a positive step (any start / stop,
+   in particular an empty slice whose start lies in a later part than its stop: F10) or for a mask head, whatever
+   the tail selects (in particular nothing: F10b): np.concatenate always gets at least one chunk and the reshape
+   never fails, so the request is answered whenever the parts answer theirs. *)
+Section Answers.
+  Context (ps : list cpart) (dt : Z) (tail : list aidx) (S : list sel).
+  Context (Hne : ps <> []).
+  Context (Hlen : Forall (fun p => 0 <= part_len p) ps).
+
+  Let lens := map part_len ps.
+  Let starts := starts_from 0 lens.
+  Let total := zsum lens.
+  Let k := List.length ps.
+  Let LN : Forall (fun h => 0 <= h) lens := lens_nonneg ps Hlen.
+  Lemma LE0 : lens <> [].
+  Proof. unfold lens. destruct ps; [congruence|discriminate]. Qed.
+
+  Lemma slice_chunks_answer start stop st :
+    (forall p x y, In p ps -> part_get dt p (ASlice (Some x) (Some y) (Some st) :: tail) <> Err) ->
+    forall inds have, Forall (fun ind => 0 <= ind < Z.of_nat k) inds ->
+    exists chunks, slice_chunks dt ps starts tail (take_shape S) start stop st have inds = Ok chunks
+                   /\ (have = false -> inds <> [] -> chunks <> []).
+  Proof.
+    intros HPG. assert (Hl : List.length lens = k) by (unfold lens, k; apply map_length).
+    set (pd := mk_cpart (mk_lazyidx [] [] [] 0) (Leaf 0)).
+    induction inds as [|ind r IH]; intros have HB.
+    - exists []. split; [reflexivity|]. intros _ H; congruence.
+    - inversion HB as [|? ? Bd HB']; subst. cbn [slice_chunks].
+      rewrite (py_nth_nonneg starts ind 0) by (unfold zlen, starts; rewrite starts_from_length, Hl; lia). cbn [bind].
+      destruct (concat_chunk_skipped have _ _) eqn:ESK.
+      + destruct (IH have HB') as [chunks [E1 _]]. exists chunks. split; [exact E1|].
+        intros -> _. unfold concat_chunk_skipped in ESK. cbn [andb] in ESK. discriminate.
+      + unfold slice_chunk.
+        rewrite (py_nth_nonneg ps ind pd) by (unfold zlen; fold k; lia). cbn [bind].
+        rewrite (py_nth_nonneg starts ind 0) by (unfold zlen, starts; rewrite starts_from_length, Hl; lia). cbn [bind].
+        destruct (part_get dt (nth (Z.to_nat ind) ps pd) _) as [sub|] eqn:EG.
+        2:{ exfalso. eapply HPG; [|exact EG]. apply nth_In. fold k. lia. }
+        cbn [bind]. unfold reshape_chunk. cbn [bind].
+        destruct (IH true HB') as [rest [E1 _]]. rewrite E1. cbn [bind].
+        exists (sub :: rest). split; [reflexivity|]. intros _ _. discriminate.
+  Qed.
+
+  Lemma find_indexer_mono x y : 0 <= x <= y -> find_indexer starts x <= find_indexer starts y.
+  Proof.
+    intros H.
+    destruct (find_indexer_spec lens x LN LE0 ltac:(lia)) as [A1 [A2 A3]].
+    destruct (find_indexer_spec lens y LN LE0 ltac:(lia)) as [B1 [B2 B3]].
+    fold starts in A1, A2, A3, B1, B2, B3.
+    set (ia := find_indexer starts x) in *. set (ib := find_indexer starts y) in *.
+    destruct (Z_le_gt_dec ia ib) as [|Hgt]; [assumption|]. exfalso.
+    specialize (B3 ltac:(lia)).
+    pose proof (bnd_mono_le lens (Datatypes.S (Z.to_nat ib)) (Z.to_nat ia) LN ltac:(unfold zlen in *; lia)). lia.
+  Qed.
+
+  Lemma concat_slice_head_answers a b cc start stop st :
+    slice_indices total a b cc = Some (start, stop, st) -> 0 < st ->
+    (forall p x y, In p ps -> part_get dt p (ASlice (Some x) (Some y) (Some st) :: tail) <> Err) ->
+    c_head ps dt total S (ASlice a b cc) tail <> Err.
+  Proof.
+    intros ESI Hst HPG. cbn [c_head]. fold lens. fold total. rewrite ESI. fold starts.
+    unfold concat_stride_rejected. assert (E : (st <? 0) = false) by lia. rewrite E.
+    unfold concat_slice_stop, concat_first_indexer, concat_end_indexer.
+    set (stop' := Z.max start stop).
+    assert (Htot : 0 <= total).
+    { unfold total. pose proof LN as LN'. revert LN'. generalize lens. intros l0 LN'.
+      induction LN'; cbn; [lia|]. fold (zsum l). lia. }
+    destruct (slice_indices_bounds _ _ _ _ _ _ _ Htot ESI) as [_ [Bp _]]. specialize (Bp Hst).
+    assert (Hl : List.length lens = k) by (unfold lens, k; apply map_length).
+    destruct (find_indexer_spec lens start LN LE0 ltac:(lia)) as [A1 _].
+    destruct (find_indexer_spec lens stop' LN LE0 ltac:(unfold stop'; lia)) as [B1 _].
+    pose proof (find_indexer_mono start stop' ltac:(unfold stop'; lia)) as Hmono.
+    fold starts in A1, B1.
+    set (ia := find_indexer starts start) in *. set (ib := find_indexer starts stop') in *.
+    unfold zlen in A1, B1. rewrite Hl in A1, B1.
+    assert (HB : Forall (fun ind => 0 <= ind < Z.of_nat k) (py_range ia (ib + 1) 1)).
+    { apply Forall_forall. intros ind Hin.
+      destruct (py_range_bounds ia (ib + 1) 1 ind ltac:(lia) Hin) as [Bd _]. specialize (Bd ltac:(lia)). lia. }
+    destruct (slice_chunks_answer start stop' st HPG _ false HB) as [chunks [E1 NE]].
+    rewrite E1. cbn [bind]. unfold concat_chunks.
+    destruct chunks as [|c0 cr]; [|discriminate].
+    exfalso. apply NE; [reflexivity| |reflexivity].
+    rewrite py_range_cons by lia. discriminate.
+  Qed.
+
+  Lemma combine_parts_ne : combine (combine ps starts) lens <> [].
+  Proof. unfold starts, lens. destruct ps as [|p r]; [congruence|]. cbn. discriminate. Qed.
+
+  Lemma concat_mask_head_answers m : zlen m = total ->
+    (forall p mm, In p ps -> part_get dt p (AMask mm :: tail) <> Err) ->
+    c_head ps dt total S (AMask m) tail <> Err.
+  Proof.
+    intros Hm HPG. cbn [c_head]. fold lens. fold total. fold starts.
+    assert (E : (zlen m =? total) = true) by lia. rewrite E.
+    assert (G : forall l, (forall q, In q l -> In (fst (fst q)) ps) ->
+                exists chunks, mapM (mask_chunk dt m tail (take_shape S)) l = Ok chunks /\ (l <> [] -> chunks <> [])).
+    { induction l as [|q l IH]; intro Hin.
+      - exists []. split; [reflexivity|congruence].
+      - cbn [mapM]. unfold mask_chunk at 1.
+        destruct (part_get dt (fst (fst q)) _) as [sub|] eqn:EG.
+        2:{ exfalso. eapply HPG; [|exact EG]. apply Hin. now left. }
+        cbn [bind]. unfold reshape_chunk. cbn [bind].
+        destruct (IH (fun q' Hq' => Hin q' (or_intror Hq'))) as [rest [E1 _]]. rewrite E1. cbn [bind].
+        exists (sub :: rest). split; [reflexivity|discriminate]. }
+    destruct (G (combine (combine ps starts) lens)) as [chunks [E1 NE]].
+    { intros [[p o] h] Hq. cbn [fst]. apply in_combine_l in Hq. now apply in_combine_l in Hq. }
+    rewrite E1. cbn [bind]. unfold concat_chunks.
+    destruct chunks as [|c0 cr]; [|discriminate]. exfalso. apply NE; [exact combine_parts_ne|reflexivity].
+  Qed.
+End Answers.
